@@ -163,7 +163,10 @@ MaxForeign == 2
 OutFails(e) ==
   CASE e.k = "info" -> (IF s.go.active /\ ~Foreign(e) THEN InfoFails(s.go, e.info)
                         ELSE IF s.go.active /\ Foreign(e) /\ s.go.foreign >= MaxForeign
-                        THEN {<<"C18", "lines-of-a-previous-search", D(e.info.raw)>>} ELSE {})
+                        THEN {<<"C18", "lines-of-a-previous-search", D(e.info.raw)>>}
+                             \* ... and when the go is a probe, what the earlier traffic printed has become part of the reply to it
+                             \cup (IF s.go.probe # "" THEN {<<"C16", "earlier-search-prints-into-this-reply", D(<<s.cmd, e.info.raw>>)>>} ELSE {})
+                        ELSE {})
     [] e.k = "bestmove" -> BestFails(e)
     \* a `readyok` nobody asked for: some line that is not an isready command was not ignored
     [] e.k = "readyok" -> IF s.ready = 0 THEN {<<"C17", "readyok-without-isready", D(s.cmd)>>} ELSE {}
